@@ -526,10 +526,15 @@ func c31Addr(s string) (a basics.Address) {
 	return
 }
 
+var (
+	c31SampleTxn = makeSampleTxn()
+	c31SamplePay = makeSampleTxnGroup(makeSampleTxn())[1]
+)
+
 func c31BuildGroup(r *kit.Rand, mode RunMode, version uint64, cfg *c31EnvCfg, prog []byte, args [][]byte) []transactions.SignedTxn {
 	txns := make([]transactions.SignedTxn, cfg.group)
 	for i := range txns {
-		t := makeSampleTxn()
+		t := c31SampleTxn // a copy; the slices inside are only ever read or replaced
 		if version < 2 && mode == ModeSig {
 			// v0/v1 programs are only allowed in groups that use no later features
 			t.Txn.RekeyTo = basics.Address{}
@@ -539,6 +544,9 @@ func c31BuildGroup(r *kit.Rand, mode RunMode, version uint64, cfg *c31EnvCfg, pr
 			t.Txn.Type = protocol.ApplicationCallTx
 			t.Txn.ApplicationID = 888
 			if i == cfg.gi {
+				if r.Bool() { // a reference to a box of the first foreign app (56)
+					t.Txn.Boxes = append(append([]transactions.BoxRef{}, t.Txn.Boxes...), transactions.BoxRef{Index: 1, Name: []byte("self")}, transactions.BoxRef{Index: 1, Name: []byte("fresh")})
+				}
 				t.Txn.OnCompletion = cfg.oc
 				if cfg.create {
 					t.Txn.ApplicationID = 0
@@ -549,7 +557,7 @@ func c31BuildGroup(r *kit.Rand, mode RunMode, version uint64, cfg *c31EnvCfg, pr
 				}
 			}
 		case i%2 == 1:
-			t = makeSampleTxnGroup(t)[1] // the plain payment of the upstream sample group
+			t = c31SamplePay // the plain payment of the upstream sample group
 		}
 		if len(args) > 0 && i == cfg.gi {
 			t.Txn.ApplicationArgs = append([][]byte{}, args...)
@@ -611,7 +619,7 @@ func c31BuildLedger(r *kit.Rand, cfg *c31EnvCfg, sample *transactions.Transactio
 	_ = l.NewBox(888, "self", make([]byte, selfLen), basics.AppIndex(888).Address())
 	_ = l.NewBox(888, "other", []byte(strings.Repeat("0123456789", otherLen/10)), basics.AppIndex(888).Address())
 	_ = l.NewBox(56, "self", make([]byte, 10), basics.AppIndex(56).Address())
-	if r.Chance(1, 4) {
+	if r.Chance(1, 2) {
 		_ = l.SetForeignBoxReads(56, true)
 		_ = l.SetFamilyBoxAccess(56, true)
 		_ = l.SetFamilyBoxAccess(888, true)
@@ -692,6 +700,9 @@ func c31Run(st *c31Stats, r *kit.Rand, mode RunMode, version uint64, prog []byte
 	// an earlier application call of the group leaves scratch space behind for gload
 	if mode == ModeApp && cfg.gi > 0 && version >= 4 && cfg.lsv >= 4 {
 		_, _, _ = EvalContract(c31Scratcher, 0, 888, ep)
+		if r.Bool() {
+			ep.TxnGroup[0].ApplyData.ApplicationID = 5005 // as if txn 0 had created an app (gaid/gaids)
+		}
 	}
 
 	mon := c31NewMonitor(st, ep)
